@@ -15,10 +15,12 @@ RULE = ('Payloads from the C12 generator (both write paths: SignatureArray fast 
         'For each payload EVERY crash point is enumerated: a forked writer is SIGKILLed immediately before its n-th h5py call (attribute '
         'set, dataset creation, dataset write, flush, close) for n = 0..count, plus one kill right after close returned (control). Oracle: '
         'load_signatures on the file left behind either raises, or yields exactly the payload (k-mer spec, IDs, metadata, every '
-        'signature, dtype); the control must load. One evaluation = one (payload, crash point) pair; non-trivial = crash after the '
+        'signature, dtype); the control must load. In addition (1 generated case in 16) the same oracle at SYSTEM-CALL granularity: a fresh writer '
+        'process under strace is SIGKILLed on entering its n-th write-type system call (pwrite64/write/ftruncate) on the output file, for every n, '
+        'which places crashes inside H5Fclose as well. One evaluation = one (payload, crash point) pair; non-trivial = crash after the '
         'format marker attribute was written and before close returned; distinct by (payload hash, point).')
-ASSUMPTIONS = ['crash points are call boundaries of the storage library as the property states; a kill inside H5Fclose (between two pwrite '
-               'calls) is outside the quantifier and cannot be placed deterministically from Python',
+ASSUMPTIONS = ['library-level crash points are h5py call boundaries, as the property states; crashes between two system calls inside H5Fclose '
+               'are covered for a sample of payloads through strace fault injection (ptrace must be permitted in the sandbox)',
                'process death is modelled by SIGKILL: kernel page cache survives (no power loss)']
 DEADLINE_S = {'quick': 240, 'thorough': 2400}
 NPROC = {'quick': 16, 'thorough': 16}
@@ -71,8 +73,94 @@ def _check_point(np, p, path, write, expected, n, count, labels, case):
 	return 'loaded_complete'
 
 
+SYSCALLS = 'pwrite64,write,pwritev,writev,ftruncate'
+
+
+def _strace(args, path, inject_at=None, trace_out='/dev/null'):
+	import subprocess, sys
+	cmd = ['strace', '-f', '-o', trace_out, '-e', 'trace=' + SYSCALLS]
+	if inject_at is not None:
+		cmd += ['-e', f'inject={SYSCALLS}:signal=SIGKILL:when={inject_at}']
+	cmd += ['-P', path] + args
+	env = dict(os.environ)
+	return subprocess.run(cmd, env=env, stdout=subprocess.PIPE, stderr=subprocess.STDOUT, timeout=600)
+
+
+def run_syscall_case(case, ctx):
+	"""Crash points at system-call granularity: the writer (a fresh python process under strace) is SIGKILLed on entering its
+	n-th write-type system call on the output file, for every n; this places crashes *inside* H5Fclose as well."""
+	import json
+	import sys
+	import numpy as np
+	from gambit.sigs.base import load_signatures
+	p = case['payload']
+	d = ctx.fresh_dir('c19sys')
+	try:
+		pj = os.path.join(d, 'payload.json')
+		json.dump(p, open(pj, 'w'))
+		path = os.path.join(d, 'out.gs')
+		verif = os.path.dirname(os.path.dirname(os.path.abspath(__file__)))
+		wargs = [sys.executable, os.path.join(verif, 'vlib', 'crash_writer.py'), pj, path]
+		trace = os.path.join(d, 'trace.txt')
+		r = _strace(wargs, path, None, trace)
+		if r.returncode != 0 or not os.path.exists(path):
+			raise HarnessError(f'strace dry run failed ({r.returncode}): {r.stdout[-500:]!r}')
+		calls = [l for l in open(trace, errors='replace') if any(f' {c}(' in l or l.split(' ', 1)[-1].startswith(c + '(') for c in SYSCALLS.split(','))]
+		count = len(calls)
+		if count == 0:
+			raise HarnessError('strace saw no write system call on the output file')
+		obj, spec, arrays, exp_ids, exp_meta = P.build(np, p)
+		# control: the complete file loads
+		loaded = load_signatures(path)
+		try:
+			P.compare_loaded(np, loaded, p, spec, arrays, exp_ids, exp_meta, Violation, case)
+		finally:
+			loaded.close()
+		points = range(1, count + 1) if count <= case.get('max_points', 60) else sorted(set(list(range(1, 21)) + list(range(count - 39, count + 1))))
+		refused = ok = 0
+		for n in points:
+			if os.path.exists(path):
+				os.unlink(path)
+			r = _strace(wargs, path, n)
+			if r.returncode != -9 and r.returncode != 137:
+				raise HarnessError(f'writer under strace was not killed at syscall {n} of {count}: rc {r.returncode}')
+			one = {'kind': 'syscall_point', 'payload': p, 'point': n}
+			if not os.path.exists(path):
+				refused += 1
+				continue
+			try:
+				loaded = load_signatures(path)
+			except Exception:
+				refused += 1
+				continue
+			try:
+				try:
+					P.compare_loaded(np, loaded, p, spec, arrays, exp_ids, exp_meta, Violation, one)
+				except Violation as v:
+					raise Violation('partial_file_loaded_syscall', f'writer killed on entering write syscall {n} of {count} ({calls[n - 1].strip()[:90]}): '
+					                f'partial file loads as a different collection: {v.msg}', one)
+				ok += 1
+			finally:
+				try:
+					loaded.close()
+				except Exception:
+					pass
+		return {'evals': len(points), 'nontrivial_count': max(0, len(points) - 1), 'nontrivial': True,
+		        'classes': ['syscall_level', 'path=' + ('array' if p['container'].endswith('array') else 'list'), f'compression={p["compression"]}',
+		                    'loads_before_last_syscall' if ok > 1 else 'only_last_syscalls_load'], 'syscalls': count}
+	finally:
+		import shutil
+		shutil.rmtree(d, ignore_errors=True)
+
+
 def run_case(case, ctx):
 	import numpy as np
+	if case['kind'] == 'syscall_points':
+		return run_syscall_case(case, ctx)
+	if case['kind'] == 'syscall_point':
+		c = dict(case)
+		c['kind'] = 'syscall_points'
+		return run_syscall_case(c, ctx)
 	p = case['payload']
 	path = ctx.fresh_path('.gs')
 	write, expected = _writer(np, p, path)
@@ -114,6 +202,8 @@ def run_case(case, ctx):
 
 @st.composite
 def gen_case(draw, tier):
+	if draw(st.integers(0, 15)) == 15:
+		return {'kind': 'syscall_points', 'payload': draw(P.payload(max_sigs=8, allow_big=False)), 'max_points': 60}
 	p = draw(P.payload(max_sigs=10, allow_big=True))
 	return {'kind': 'all_points', 'payload': p}
 
